@@ -621,7 +621,10 @@ class SynthDef(metaclass=MetaSynthDef):
         if self._bytes is None:
             stream = io.BytesIO()
             self._write_def_list([self], stream)
-            self._bytes = stream.getbuffer()
+            # bytes, not stream.getbuffer(): a memoryview kept in an object that ends up in
+            # cyclic garbage makes CPython free the BytesIO while the view is still exported
+            # (SystemError + segmentation fault in the garbage collector).
+            self._bytes = stream.getvalue()
         return self._bytes
 
     def _write_def_file(self, dir, overwrite=True, md_plugin=None):
